@@ -807,6 +807,7 @@ func assertDischarged(info *types.Info, body *ast.BlockStmt, path []ast.Node, ta
 
 func c04Controls() []core.Mutant {
 	return []core.Mutant{
+		{Name: "refactor: recover handler with a guard clause", File: "vm/vm.go", Old: "\t\tif r := recover(); r != nil {\n\t\t\tf := &file.Error{\n\t\t\t\tLocation: program.Locations[vm.pp],\n\t\t\t\tMessage:  fmt.Sprintf(\"%v\", r),\n\t\t\t}\n\t\t\terr = f.Bind(program.Source)\n\t\t}\n", New: "\t\tr := recover()\n\t\tif r == nil {\n\t\t\treturn\n\t\t}\n\t\tf := &file.Error{\n\t\t\tLocation: program.Locations[vm.pp],\n\t\t\tMessage:  fmt.Sprintf(\"%v\", r),\n\t\t}\n\t\terr = f.Bind(program.Source)\n", Silent: true},
 		{Name: "Parse reports success without looking at the recorded error", File: "parser/parser.go", Old: "\tif p.err != nil {\n\t\treturn nil, p.err.Bind(source)\n\t}\n", New: "", Rule: "R4.5", Construct: "parser.Parse"},
 		{Name: "Optimize ignores the error a fold recorded", File: "optimizer/optimizer.go", Old: "\t\tif fold.err != nil {\n\t\t\treturn fold.err\n\t\t}\n", New: "", Rule: "R4.5", Construct: "optimizer.Optimize"},
 		{Name: "length of the literal taken before the newline normalisation", File: "parser/lexer/utils.go", Old: "\tvalue = newlineNormalizer.Replace(value)\n\tn := len(value)\n", New: "\tn := len(value)\n\tvalue = newlineNormalizer.Replace(value)\n", Rule: "R4.3", Construct: "unescape/no index by a stale length"},
